@@ -1,4 +1,5 @@
 import Gaftools.Props.C06
+import Gaftools.Props.C06b
 #print axioms Gaftools.C18.runOrder_ranges
 #print axioms Gaftools.C18.numberChain_scaffold
 #print axioms Gaftools.C18.numberChain_bubble
@@ -7,3 +8,5 @@ import Gaftools.Props.C06
 #print axioms Gaftools.C06.dfs_path
 #print axioms Gaftools.C06.dfs_path_rev
 #print axioms Gaftools.C06.dfs_path_perm
+#print axioms Gaftools.C06.finish_path
+#print axioms Gaftools.C06.finish_path_rev
